@@ -5,3 +5,4 @@ import CtyModel.Props.C10
 import CtyModel.Props.C11
 import CtyModel.Props.C14
 import CtyModel.Props.C18
+import CtyModel.Props.C05
